@@ -273,6 +273,7 @@ class K6Polars(K4Sem):
         if isinstance(out, dict):
             self.guards[_sig(case)] = out.get("guards") if "unsupported" not in out else None
         self._last = _sig(case)
+        self._cur_case = case or {}
         return super().model_canon(out, case)
 
     def agree(self, real_c, model_c):
@@ -294,6 +295,13 @@ class K6Polars(K4Sem):
         if "err" in real_c:
             self.real_raises += 1
             if "err" in model_c:
+                return True
+            if "ok" in model_c and real_c.get("cls") == "OverflowError" and ".around(-" in json.dumps(getattr(self, "_cur_case", {}).get("pipe")):
+                # Polars `round(decimals=k)` takes an unsigned k: a negative number of decimals raises (a raise is accepted
+                # by C03; the model has no such raise because its `around` is the numpy meaning)
+                self.dtype_raises += 1
+                self.dtype_classes["OverflowError(around negative decimals)"] = \
+                    self.dtype_classes.get("OverflowError(around negative decimals)", 0) + 1
                 return True
             if "ok" in model_c and real_c.get("cls") in DTYPE_ERRORS:
                 self.dtype_raises += 1
